@@ -96,6 +96,15 @@ func (pConn *PFCPConn) startHeartBeatMonitor() {
 	heartBeatExpiryTimer := time.NewTicker(pConn.upf.hbInterval)
 
 	for {
+		// A monitor that was replaced while it waited for the answer to its request (the peer set
+		// the association up again) stops here: it must neither send another heartbeat nor take
+		// the reset signals that are meant for its successor.
+		if hbCtx.Err() != nil {
+			heartBeatExpiryTimer.Stop()
+
+			return
+		}
+
 		select {
 		case <-hbCtx.Done():
 			logger.PfcpLog.Infoln("cancel HeartBeat Timer", pConn.RemoteAddr().String())
